@@ -173,3 +173,41 @@ Fixpoint run_one (w t : Z) (steps : list (Z * Z * Z)) : Z * Z * list (Z * Z) :=
       let '(w2, t2, out) := run_one w1 (now + d) rest in
       (w2, t2, (now, d) :: out)
   end.
+
+(* ---- every exported sender (commands.go, client.go) ---------------------------------- *)
+(* Which internal path an exported sender hands its events to: Client.Send (the limited
+   path: rate, sleep, write) or Client.write (straight to the queue).  One row per exported
+   method of *Commands, plus Client.Send itself and Client.Quit.  Helpers that call other
+   helpers (Messagef -> Message, Ban -> Mode, Reply -> Message, SendCTCP -> Message,
+   SendRawf -> SendRaw, Away "" -> Back, ...) are listed with the path they end in.
+   Config.GlobalFormat changes the text of PRIVMSG/NOTICE/TOPIC inside Send (before the
+   split), never the path; Config.AllowFlood makes Send skip the rate call. *)
+Inductive route : Type := ViaSend | ViaWrite.
+
+Definition entry_points : list (str * route) :=
+  [ (bs "Nick", ViaSend); (bs "Join", ViaSend); (bs "JoinKey", ViaSend); (bs "Part", ViaSend);
+    (bs "PartMessage", ViaSend); (bs "SendCTCP", ViaSend); (bs "SendCTCPf", ViaSend);
+    (bs "SendCTCPReplyf", ViaSend); (bs "SendCTCPReply", ViaSend); (bs "Message", ViaSend);
+    (bs "Messagef", ViaSend); (bs "Reply", ViaSend); (bs "Replyf", ViaSend); (bs "ReplyTo", ViaSend);
+    (bs "ReplyTof", ViaSend); (bs "Action", ViaSend); (bs "Actionf", ViaSend); (bs "Notice", ViaSend);
+    (bs "Noticef", ViaSend); (bs "SendRaw", ViaSend); (bs "SendRawf", ViaSend); (bs "Topic", ViaSend);
+    (bs "Who", ViaSend); (bs "Whois", ViaSend);
+    (bs "Ping", ViaWrite); (bs "Pong", ViaWrite);
+    (bs "Oper", ViaSend); (bs "Kick", ViaSend); (bs "Ban", ViaSend); (bs "Unban", ViaSend);
+    (bs "Mode", ViaSend); (bs "Invite", ViaSend); (bs "Away", ViaSend); (bs "Back", ViaSend);
+    (bs "List", ViaSend); (bs "Whowas", ViaSend); (bs "Monitor", ViaSend);
+    (bs "Client.Send", ViaSend); (bs "Client.Quit", ViaSend) ].
+
+Fixpoint lookup_route (name : str) (l : list (str * route)) : option route :=
+  match l with
+  | [] => None
+  | (n, r) :: rest => if streqb n name then Some r else lookup_route name rest
+  end.
+Definition entry_route (name : str) : option route := lookup_route name entry_points.
+
+(* what one event of that sender contributes to a schedule *)
+Definition entry_actions (global_format allow_flood : bool) (r : route) (now : Z) (e : event) : list action :=
+  match r with
+  | ViaSend => send_piece allow_flood now e
+  | ViaWrite => [AEnq e]
+  end.
